@@ -26,6 +26,10 @@ structure DictModel where
   image : Option (List UInt8) := none
   /-- exact kinds with a model of their prefix search: the ID range, `(0,0)` = none, `none` = model fault -/
   prefixRange : Option (Str → Option (Nat × Nat)) := none
+  /-- exact kinds with a model of `extractPrefix`: `some none` = NULL, `none` = model fault -/
+  prefixStrings : Option (Str → Option (Option (List Str))) := none
+  /-- exact kinds with a model of `extractTable`: the drained iterator, `none` = model fault -/
+  tableScan : Option (Option (List Str)) := none
   /-- exact kinds with a model of their loader: given the stream (image ++ trailer), the answers of
   the reloaded object (locate, extract, numElements, maxLength, its own re-saved image) and the rest
   of the stream -/
@@ -120,7 +124,16 @@ def runDict (c : Case) (m : DictModel) (emit : Nat → String → IO Unit) : IO 
     | ["sub", h] => emit k s!"B {joinIds (mapIds m (if m.hasSubstr then Spec.substrIds S (unhex h) else []))}"
     | ["xpre", h] =>
       let ids := if m.hasPrefix then Spec.prefixIds S (unhex h) else []
-      emit k s!"XP {joinStrs (ids.filterMap (Spec.extract S))}"
+      let spec := ids.filterMap (Spec.extract S)
+      match m.prefixStrings with
+      | some f =>
+        match f (unhex h) with
+        | none => emit k "XP MODEL-FAULT"
+        | some r =>
+          -- the modelled range scan must also agree with the specification (NULL = nothing)
+          if r.getD [] == spec && (r.isNone == spec.isEmpty) then emit k s!"XP {joinStrs spec}"
+          else emit k s!"XP MODEL-DIFFERS-FROM-SPEC {joinStrs (r.getD [])}"
+      | none => emit k s!"XP {joinStrs spec}"
     | ["xsub", h] =>
       let ids := if m.hasSubstr then Spec.substrIds S (unhex h) else []
       emit k s!"XB {joinStrs (ids.filterMap (Spec.extract S))}"
@@ -138,7 +151,11 @@ def runDict (c : Case) (m : DictModel) (emit : Nat → String → IO Unit) : IO 
       else emit k s!"XR {strOrNull (Spec.extract S r)}"
     | ["tab"] =>
       if !m.hasTable then emit k "T -"
-      else if m.ordered then emit k s!"T {joinStrs S}"
+      else if m.ordered then
+        match m.tableScan with
+        | some none => emit k "T MODEL-FAULT"
+        | some (some l) => if l == S then emit k s!"T {joinStrs S}" else emit k s!"T MODEL-DIFFERS-FROM-SPEC {joinStrs l}"
+        | none => emit k s!"T {joinStrs S}"
       else match (List.range m.numElements).mapM (fun i => m.extract (i + 1)) with
         | some l => emit k s!"T {joinStrs (l.filterMap id)}"
         | none => emit k "T ?"
